@@ -44,6 +44,7 @@ fn main() {
         "export" => export(&args),
         "cold-one" => cold_one(&args),
         "one" => one(&args),
+        "grid" => grid(&args),
         "exec-file" => exec_file(&args),
         "selftest-model" => selftest_model(),
         "cold-exec" => cold_exec(&args),
@@ -221,54 +222,52 @@ fn check(args: &[String]) {
         let _ = std::fs::remove_file(format!("{}.il", df));
         seam = json!(seam_tot);
     }
-    // grid phase: the small finite dimensions enumerated completely (see engine::grid_cases)
+    // grid phase: the small finite dimensions enumerated completely (see engine::grid_cases); runs in a child
+    // process so that a crash inside cipher code is an attributable outcome, not the end of the driver
     let mut grid_json = Value::Null;
     {
-        let reg = sim::registry::build();
-        let anchors = Anchors::compute(&reg);
-        install_quiet_panic_hook();
-        let known = Known::load(&known_path);
         let tg = Instant::now();
-        let cases = sim::engine::grid_cases(&reg, prop, seed);
-        let (mut gops, mut gcalls, mut gviol) = (0u64, 0u64, 0u64);
-        for (ci, c) in cases.iter().enumerate() {
-            let r = execute_mode(&reg, &anchors, &c.cfg, &c.ops, seed ^ ci as u64, Some(prop.name()), &known, false);
-            gops += r.stats.steps - r.stats.skipped;
-            gcalls += r.stats.cipher_calls;
-            stats.add(&r.stats);
-            if let Some(e) = &r.harness_error {
-                herr.push(format!("grid case {}: {}", c.label, e));
+        let out = Command::new(&exe)
+            .args(["grid", "--prop", prop.name(), "--seed", &seed.to_string(), "--known", &known_path, "--replay-dir", &replay_dir])
+            .stdout(Stdio::piped())
+            .stderr(Stdio::piped())
+            .output()
+            .unwrap_or_else(|e| die(&format!("spawn grid: {}", e)));
+        let so = String::from_utf8_lossy(&out.stdout).to_string();
+        let done: Option<Value> = so.lines().find_map(|l| l.strip_prefix("@grid-done ")).and_then(|x| serde_json::from_str(x).ok());
+        match done {
+            Some(j) if out.status.success() => {
+                runs += j["cases"].as_u64().unwrap_or(0);
+                stats.add(&Stats::from_json(&j["stats"]));
+                for v in j["violations"].as_array().cloned().unwrap_or_default() {
+                    violations.push(v);
+                }
+                for k in j["known_hits"].as_array().cloned().unwrap_or_default() {
+                    known_hits.insert(k[0].as_str().unwrap_or("").to_string(), k[1].as_str().unwrap_or("").to_string());
+                }
+                for e in j["harness_errors"].as_array().cloned().unwrap_or_default() {
+                    herr.push(e.as_str().unwrap_or("").to_string());
+                }
+                grid_json = json!({
+                    "what": "complete enumeration of the small finite dimensions through the same World and oracles: every family x all linked build variants at once x both detection arms (where a variant goes through detection) x every role x {key lengths: all accepted ones for C03, shortest and longest otherwise} x every call shape x batch-length classes {0,1,2,par-1,par,par+1,2par+1} x placement classes {in place, in place at the arena end, out above with a gap, out below touching, out at the arena end}, half of the cases between inaccessible pages; for C12 additionally every construction route up to depth 3 (new / new_from_slice, clone, clone of clone, From<Enc> and From<&Enc> to either target, clone of converted) with the source dropped first or kept, relocation before use. Keys and block contents are sampled",
+                    "cases": j["cases"], "operations_applied": j["operations_applied"], "cipher_calls": j["cipher_calls"], "wall_s": tg.elapsed().as_secs_f64(),
+                });
             }
-            for n in &r.notes {
-                if let Some((sg, w)) = known.matches(n) {
-                    known_hits.insert(sg.clone(), w.clone());
+            _ => {
+                // the grid child died: the last announced case is the one that kills it
+                let last = so.lines().rev().find_map(|l| l.strip_prefix("@case ")).and_then(|x| x.trim().parse::<usize>().ok());
+                let tail = String::from_utf8_lossy(&out.stderr).lines().rev().take(3).collect::<Vec<_>>().join(" | ");
+                let reg = sim::registry::build();
+                let cases = sim::engine::grid_cases(&reg, prop, seed);
+                match last.and_then(|ci| cases.get(ci).map(|c| (ci, c))) {
+                    Some((ci, c)) => match died_list(&exe, prop, seed ^ ci as u64, &c.cfg, &c.ops, &format!("{}/{}-grid-died-{}-{}", replay_dir, prop.name(), seed, ci), &known_path, &tmp, &format!("grid case {}: {}", c.label, tail)) {
+                        Some(v) => violations.push(v),
+                        None => herr.push(format!("grid child ended abnormally in case {} ({}) but that case does not die when repeated alone: {:?}; {}", ci, c.label, out.status, tail)),
+                    },
+                    None => herr.push(format!("grid child ended abnormally: {:?}; {}", out.status, tail)),
                 }
             }
-            if r.violation.is_some() && gviol < 3 {
-                gviol += 1;
-                let v = r.violation.clone().unwrap();
-                let base = format!("{}/{}-grid-{}-{}", replay_dir, prop.name(), seed, ci);
-                let _ = std::fs::create_dir_all(&replay_dir);
-                let (path, vj) = match sim::engine::shrink(&reg, &anchors, &r, &known, prop.name()) {
-                    Some(sh) => {
-                        let p = format!("{}.min.json", base);
-                        let _ = std::fs::write(&p, serde_json::to_string_pretty(&replay_json(&reg, prop.name(), r.seed, &sh.cfg, &sh.ops, &sh.violation, json!({"grid_case": c.label, "minimised": true, "ops_before": r.ops.len(), "ops_after": sh.ops.len()}))).unwrap());
-                        (p, sh.violation.to_json())
-                    }
-                    None => {
-                        let p = format!("{}.orig.json", base);
-                        let _ = std::fs::write(&p, serde_json::to_string_pretty(&replay_json(&reg, prop.name(), r.seed, &r.cfg, &r.ops[..=v.step.min(r.ops.len() - 1)], &v, json!({"grid_case": c.label, "minimised": false}))).unwrap());
-                        (p, v.to_json())
-                    }
-                };
-                violations.push(json!({"replay": path, "violation": vj, "run": format!("grid:{}", c.label), "seed": r.seed}));
-            }
         }
-        runs += cases.len() as u64;
-        grid_json = json!({
-            "what": "complete enumeration of the small finite dimensions through the same World and oracles: every family x all linked build variants at once x both detection arms (where a variant goes through detection) x every role x {key lengths: all accepted ones for C03, shortest and longest otherwise} x every call shape x batch-length classes {0,1,2,par-1,par,par+1,2par+1} x placement classes {in place, in place at the arena end, out above with a gap, out below touching, out at the arena end}; for C12 additionally every construction route up to depth 3 (new / new_from_slice, clone, clone of clone, From<Enc> and From<&Enc> to either target, clone of converted) with the source dropped first or kept, relocation before use. Keys and block contents are sampled",
-            "cases": cases.len(), "operations_applied": gops, "cipher_calls": gcalls, "wall_s": tg.elapsed().as_secs_f64(),
-        });
     }
     // cold-start phase (C15, C12): one history per fresh process, oracles deferred
     let cold_total: u64 = arg(args, "--cold").and_then(|s| s.parse().ok()).unwrap_or(match (prop, tier.as_str()) {
@@ -535,6 +534,7 @@ fn export(args: &[String]) {
         variants: vars,
         max_len: arg(args, "--max-ops").and_then(|s| s.parse().ok()),
         max_variants: arg(args, "--max-variants").and_then(|s| s.parse().ok()),
+        pars_hint: arg(args, "--pars").map(|s| s.split(',').filter_map(|x| x.parse().ok()).collect()),
     };
     let anchors = Anchors::compute_for(&reg, Some(&fams));
     install_quiet_panic_hook();
@@ -759,6 +759,19 @@ fn selftest_model() {
                 die("the aarch64 intrinsic model disagrees with AES-NI");
             }
         }
+        // keygenassist
+        #[target_feature(enable = "aes")]
+        unsafe fn kga<const R: i32>(x: [u8; 16]) -> [u8; 16] {
+            unsafe { core::mem::transmute(_mm_aeskeygenassist_si128::<R>(core::mem::transmute(x))) }
+        }
+        for _ in 0..20_000 {
+            let mut x = [0u8; 16];
+            rng.fill(&mut x);
+            let ok = unsafe { kga::<0x00>(x) == m::keygenassist(x, 0) && kga::<0x1b>(x) == m::keygenassist(x, 0x1b) && kga::<0x80>(x) == m::keygenassist(x, 0x80) };
+            if !ok {
+                die("the keygenassist model disagrees with AES-NI");
+            }
+        }
         // tbl4
         let tab = [[1u8; 16], [2; 16], [3; 16], [4; 16]];
         let mut ix = [0u8; 16];
@@ -770,7 +783,7 @@ fn selftest_model() {
             let j = ix[i] as usize;
             assert_eq!(o[i], if j < 64 { (j / 16 + 1) as u8 } else { 0 });
         }
-        println!("selftest-model: aese/aesd/aesmc/aesimc agree with AES-NI on 100000 random inputs; tbl4 ok");
+        println!("selftest-model: aese/aesd/aesmc/aesimc agree with AES-NI on 100000 random inputs, keygenassist on 20000; tbl4 ok");
     }
 }
 
@@ -838,27 +851,44 @@ fn died_run(exe: &std::path::Path, prop: Prop, rs: u64, ri: u64, master: u64, re
     let env: Value = so.lines().find_map(|l| l.strip_prefix("@env ")).and_then(|x| serde_json::from_str(x).ok())?;
     let opsj: Vec<Value> = so.lines().filter_map(|l| l.strip_prefix("@op ")).filter_map(|x| x.split_once(' ')).filter_map(|(_, j)| serde_json::from_str(j).ok()).collect();
     let l = load_replay(&reg, &json!({"property": prop.name(), "seed": rs, "environment": env, "ops": opsj})).ok()?;
+    let _ = (master, how);
+    died_list(exe, prop, rs, &l.cfg, &l.ops, &format!("{}/{}-died-{}-{}", replay_dir, prop.name(), master, ri), known_path, tmp, tail)
+}
+
+/// A given history kills the process executing it: confirm in a child, minimise in children, write a replay file.
+#[allow(clippy::too_many_arguments)]
+fn died_list(exe: &std::path::Path, prop: Prop, rs: u64, cfg0: &RunCfg, ops0: &[Op], base: &str, known_path: &str, tmp: &str, tail: &str) -> Option<Value> {
+    let reg = sim::registry::build();
+    let ri = rs;
+    struct L { cfg: RunCfg, ops: Vec<Op> }
+    let l = L { cfg: cfg0.clone(), ops: ops0.to_vec() };
+    let how = tail.to_string();
+    let replay_dir = std::path::Path::new(base).parent().map(|p| p.display().to_string()).unwrap_or_default();
+    let base = base.to_string();
     let v0 = died_violation(&reg, &l.ops, &how);
     let mk = |cfg: &RunCfg, ops: &[Op], v: &Violation, meta: Value| {
         let mut rj = replay_json(&reg, prop.name(), rs, cfg, ops, v, meta);
         rj["died"] = json!(true);
         rj
     };
-    let base = format!("{}/{}-died-{}-{}", replay_dir, prop.name(), master, ri);
-    let _ = std::fs::create_dir_all(replay_dir);
+    let _ = std::fs::create_dir_all(&replay_dir);
     let _ = std::fs::write(format!("{}.orig.json", base), serde_json::to_string_pretty(&mk(&l.cfg, &l.ops, &v0, json!({"run": ri, "minimised": false, "worker_stderr": tail}))).unwrap());
     let rr = RunResult { seed: rs, cfg: l.cfg.clone(), ops: l.ops.clone(), violation: Some(v0.clone()), notes: vec![], stats: Stats::default(), h_all: 0, h_portable: 0, task_order: 0, insts_created: 0, harness_error: None };
     let cand = format!("{}/died-cand-{}.json", tmp, ri);
     let mut exec = |cfg: &RunCfg, ops: &[Op]| -> Option<Violation> {
         let rj = mk(cfg, ops, &v0, json!({}));
         std::fs::write(&cand, serde_json::to_string(&rj).unwrap()).ok()?;
-        let o = Command::new(exe).args(["exec-file", &cand, "--known", known_path]).stdout(Stdio::piped()).stderr(Stdio::piped()).output().ok()?;
+        let o = Command::new(exe).args(["exec-file", &cand, "--known", known_path]).env("VERIF_TRACE_OPS", "1").stdout(Stdio::piped()).stderr(Stdio::piped()).output().ok()?;
         if o.status.success() {
             None
         } else if o.status.code() == Some(2) {
             None
         } else {
-            Some(died_violation(&reg, ops, "died again"))
+            // the last announced operation is the fatal one
+            let so = String::from_utf8_lossy(&o.stdout);
+            let last = so.lines().rev().find_map(|l| l.strip_prefix("@op ")).and_then(|x| x.split(' ').next()).and_then(|x| x.parse::<usize>().ok()).unwrap_or(ops.len().saturating_sub(1));
+            let upto = (last + 1).min(ops.len());
+            Some(died_violation(&reg, &ops[..upto], "died again"))
         }
     };
     // signature of a death carries no family; shrink_with compares signatures, which are equal for all deaths of one property
@@ -873,4 +903,56 @@ fn died_run(exe: &std::path::Path, prop: Prop, rs: u64, ri: u64, master: u64, re
         None => (format!("{}.orig.json", base), v0),
     };
     Some(json!({"replay": path, "violation": v.to_json(), "run": ri, "seed": rs}))
+}
+
+/// The grid phase in a process of its own (see check()): announces each case before executing it.
+fn grid(args: &[String]) {
+    let reg = sim::registry::build();
+    let anchors = Anchors::compute(&reg);
+    install_quiet_panic_hook();
+    let (prop, seed) = common(args);
+    let known = Known::load(arg(args, "--known").unwrap_or("/verif/known_findings.json"));
+    let replay_dir = arg(args, "--replay-dir").unwrap_or("/verif/replays").to_string();
+    let cases = sim::engine::grid_cases(&reg, prop, seed);
+    let mut stats = Stats::default();
+    let (mut gops, mut gcalls) = (0u64, 0u64);
+    let mut violations: Vec<Value> = Vec::new();
+    let mut herr: Vec<String> = Vec::new();
+    let mut known_hits: Vec<Value> = Vec::new();
+    for (ci, c) in cases.iter().enumerate() {
+        println!("@case {}", ci);
+        let _ = std::io::stdout().flush();
+        let r = execute_mode(&reg, &anchors, &c.cfg, &c.ops, seed ^ ci as u64, Some(prop.name()), &known, false);
+        gops += r.stats.steps - r.stats.skipped;
+        gcalls += r.stats.cipher_calls;
+        stats.add(&r.stats);
+        if let Some(e) = &r.harness_error {
+            herr.push(format!("grid case {}: {}", c.label, e));
+        }
+        for n in &r.notes {
+            if let Some((sg, w)) = known.matches(n) {
+                known_hits.push(json!([sg, w]));
+            }
+        }
+        if r.violation.is_some() && violations.len() < 3 {
+            let v = r.violation.clone().unwrap();
+            let base = format!("{}/{}-grid-{}-{}", replay_dir, prop.name(), seed, ci);
+            let _ = std::fs::create_dir_all(&replay_dir);
+            let (path, vj) = match sim::engine::shrink(&reg, &anchors, &r, &known, prop.name()) {
+                Some(sh) => {
+                    let p = format!("{}.min.json", base);
+                    let _ = std::fs::write(&p, serde_json::to_string_pretty(&replay_json(&reg, prop.name(), r.seed, &sh.cfg, &sh.ops, &sh.violation, json!({"grid_case": c.label, "minimised": true, "ops_before": r.ops.len(), "ops_after": sh.ops.len()}))).unwrap());
+                    (p, sh.violation.to_json())
+                }
+                None => {
+                    let p = format!("{}.orig.json", base);
+                    let _ = std::fs::write(&p, serde_json::to_string_pretty(&replay_json(&reg, prop.name(), r.seed, &r.cfg, &r.ops[..=v.step.min(r.ops.len() - 1)], &v, json!({"grid_case": c.label, "minimised": false}))).unwrap());
+                    (p, v.to_json())
+                }
+            };
+            violations.push(json!({"replay": path, "violation": vj, "run": format!("grid:{}", c.label), "seed": r.seed}));
+        }
+    }
+    println!("@grid-done {}", serde_json::to_string(&json!({"cases": cases.len(), "operations_applied": gops, "cipher_calls": gcalls, "stats": stats.to_json(),
+        "violations": violations, "harness_errors": herr, "known_hits": known_hits})).unwrap());
 }
